@@ -277,7 +277,7 @@ func byDefinition(fn string, raw bool, args []string) string {
 			return "by-definition:range-over-open-channel"
 		}
 	case "common-lisp:dotimes":
-		if !raw && 0 < len(args) && (args[0] == "big62" || args[0] == "big40") {
+		if !raw && 0 < len(args) && (args[0] == "big62" || args[0] == "big40" || args[0] == "maxfix") {
 			return "by-definition:dotimes-2^62"
 		}
 	}
